@@ -51,7 +51,8 @@ def mk_case(cid, kinds, seps, suppress, rng, origin="tlc"):
         text += SEP[s] + el["text"]
     return {"id": cid, "kind": "c06", "origin": origin,
             "abs": {"kinds": list(kinds), "seps": list(seps), "suppress": bool(suppress)},
-            "args": {"text": text, "elements": els, "suppress": bool(suppress), "acres": acres}}
+            "args": {"text": text, "elements": els, "suppress": bool(suppress), "acres": acres,
+                     "seq": rng.random() < 0.3}}
 
 
 def neutralised(case, what):
